@@ -213,6 +213,33 @@ def mixed_twins(U, P, W=None):
     return out
 
 
+FORMS = ["list", "tuple", "generator", "iter", "map", "nparray", "reversed"]
+
+
+def form_of(case):
+    """argument form chosen by the case itself (stable hash), so that a replay uses the same form"""
+    h = hashlib.sha1(json.dumps(case, sort_keys=True, default=str).encode()).hexdigest()
+    return FORMS[int(h, 16) % len(FORMS)]
+
+
+def as_form(nodes, form):
+    """the same node sequence handed over in another container / iterable form (one-shot iterators included)"""
+    nodes = list(nodes)
+    if form == "tuple":
+        return tuple(nodes)
+    if form == "generator":
+        return (x for x in nodes)
+    if form == "iter":
+        return iter(nodes)
+    if form == "map":
+        return map(lambda x: x, nodes)
+    if form == "nparray":
+        return np.array(nodes, dtype=object)
+    if form == "reversed":
+        return reversed(nodes[::-1])
+    return nodes
+
+
 def has_float(obj):
     """does a result of the real code contain a python/numpy float anywhere?"""
     if obj is None:
